@@ -195,6 +195,9 @@ pub struct CacheFacts {
     /// now stored is not the one of the circuit whose data the slot holds (on a first fill the
     /// same comparison validates the harness replica instead)
     pub stale_fp_after_refill: Option<String>,
+    /// `L-reuse` only: the child the circuit was built for and the child proved over carry
+    /// different preprocessed commitments (batch children; `None` for uni-STARK children)
+    pub reuse_commitments_differ: Option<bool>,
 }
 
 pub struct Outcome {
@@ -357,6 +360,58 @@ pub fn exec_l(env: &Env, x: &ProofObj, cache: Option<(&ProofObj, usize)>, p: usi
     });
     let (verdict, output) = judge(env, p, res);
     drop(prep);
+    Ok(Outcome { verdict, facts, output, secs: t0.elapsed().as_secs_f64() })
+}
+
+/// `L-reuse(a -> b)`: the verification circuit, its `verifier_result` and the
+/// `NextLayerPrepCache` are built ONCE from child `a` (the offline step of a prover service) and
+/// used unchanged in `prove_next_layer` over child `b`. `a` and `b` have one shape id, so the
+/// circuit built for `b` is the same circuit (digest compared again here and recorded in
+/// `facts.same_circuit`); everything that differs between the children - proof values, public
+/// values, the preprocessed commitment in `common_data` - has to come from `b` at run time.
+pub fn exec_l_reuse(env: &Env, a: &ProofObj, b: &ProofObj, p: usize) -> Result<Outcome, String> {
+    let t0 = Instant::now();
+    let params = &env.params[p].1;
+    let mut facts = CacheFacts::default();
+    let (cnt_a, dig_a) = l_circuit_id(env, a)?;
+    let (cnt_b, dig_b) = l_circuit_id(env, b)?;
+    facts.given = true;
+    facts.same_circuit = dig_a == dig_b;
+    facts.same_params = true;
+    facts.fp_equal = cnt_a == cnt_b;
+    facts.fp_now = fp_str(&cnt_b);
+    facts.fp_cache = fp_str(&cnt_a);
+    if let (ProofObj::Batch { proof: pa, .. }, ProofObj::Batch { proof: pb, .. }) = (a, b) {
+        facts.reuse_commitments_differ =
+            Some(crate::objs::common_digest(&pa.stark_common) != crate::objs::common_digest(&pb.stark_common));
+    }
+    macro_rules! reuse {
+        ($ai:expr, $bi:expr, $A:ty) => {
+            quiet_catch(|| -> Result<RecursionOutput<Cfg>, VerificationError> {
+                let (c, vr) = build_next_layer_circuit::<Cfg, $A, _, D>(&$ai, &env.cfg, &env.backend)?;
+                let prep = build_next_layer_prep::<Cfg, $A, _, D>(&c, &env.cfg, &env.backend, params)?;
+                prove_next_layer::<Cfg, $A, _, D>(&$bi, &c, &vr, &env.cfg, &env.backend, params, Some(&prep))
+            })
+        };
+    }
+    let res = match (a, b) {
+        (ProofObj::Uni { proof: pa, air: aa, pis: ia }, ProofObj::Uni { proof: pb, air: ab, pis: ib }) => {
+            let ai: RecursionInput<'_, Cfg, crate::objs::FibAir> =
+                RecursionInput::UniStark { proof: pa, air: aa, public_inputs: ia.clone(), preprocessed_commit: None };
+            let bi: RecursionInput<'_, Cfg, crate::objs::FibAir> =
+                RecursionInput::UniStark { proof: pb, air: ab, public_inputs: ib.clone(), preprocessed_commit: None };
+            reuse!(ai, bi, crate::objs::FibAir)
+        }
+        (ProofObj::Batch { proof: pa, tpi: ta }, ProofObj::Batch { proof: pb, tpi: tb }) => {
+            let ai: RecursionInput<'_, Cfg, BatchOnly> =
+                RecursionInput::BatchStark { proof: pa, common_data: &pa.stark_common, table_public_inputs: ta.clone() };
+            let bi: RecursionInput<'_, Cfg, BatchOnly> =
+                RecursionInput::BatchStark { proof: pb, common_data: &pb.stark_common, table_public_inputs: tb.clone() };
+            reuse!(ai, bi, BatchOnly)
+        }
+        _ => return Err("HARNESS: L-reuse over two proofs of different kinds (they cannot share a shape id)".into()),
+    };
+    let (verdict, output) = judge(env, p, res);
     Ok(Outcome { verdict, facts, output, secs: t0.elapsed().as_secs_f64() })
 }
 
